@@ -44,6 +44,7 @@ def parseOp (ws : List String) : Option Op :=
   | "mknsimm" :: b :: items => do let b ← pBool b; let is ← items.mapM pItem; pure (Op.mknsImm b is)
   | ["copykw", n, c, m] => do pure (Op.copyKw (← n.toNat?) (← pCase c) (← pCase m))
   | ["scoped", n] => do pure (Op.scopedCopy (← n.toNat?))
+  | "sortx" :: n :: ts => do pure (Op.sortx (← n.toNat?) (← ts.mapM String.toNat?))
   | ["ltm", n, c, l] => do pure (Op.ltm (← n.toNat?) (← pCase c) (← pStr l))
   | ["mk", l] => (pStr l).map Op.mk
   | "mkns" :: b :: items => do let b ← pBool b; let is ← items.mapM pItem; pure (Op.mkns b is)
